@@ -1764,7 +1764,19 @@ impl Compiler {
         let binfo = &mut self.asm.bindings.make_mut()[local.index];
         binfo.used = true;
         // Handle recursion depth
+        // The depth is restored on every exit path
         self.comptime_depth += 1;
+        let res = self.modifier_ref_expand(r, local, modifier_span, operands);
+        self.comptime_depth -= 1;
+        res
+    }
+    fn modifier_ref_expand(
+        &mut self,
+        r: Ref,
+        local: LocalIndex,
+        modifier_span: CodeSpan,
+        operands: Vec<Sp<Word>>,
+    ) -> UiuaResult<Node> {
         if self.comptime_depth > MAX_COMPTIME_DEPTH {
             return Err(self.error(
                 modifier_span.clone(),
@@ -1818,7 +1830,6 @@ impl Compiler {
         } else {
             Node::empty()
         };
-        self.comptime_depth -= 1;
         Ok(node)
     }
     /// Compile a primitive as a macro specifying optional arguments
@@ -2237,6 +2248,8 @@ impl Compiler {
         let pre_eval_mod = replace(&mut self.pre_eval_mode, temp_mode);
         self.comptime_depth += 1;
         if self.comptime_depth > MAX_COMPTIME_DEPTH {
+            self.comptime_depth -= 1;
+            self.pre_eval_mode = pre_eval_mod;
             return Err(self.error(span.clone(), "Compile-time evaluation recurs too deep"));
         }
         let errors_before = self.errors.len();
